@@ -118,8 +118,9 @@ type report struct {
 		Msg     string `json:"msg"`
 		Witness string `json:"witness"`
 	} `json:"violations"`
-	Hooks bool `json:"hooks"`
-	Done  bool `json:"done"`
+	Hooks       bool           `json:"hooks"`
+	Done        bool           `json:"done"`
+	Transcripts map[int]uint64 `json:"transcripts"`
 }
 
 type viol struct {
@@ -268,6 +269,7 @@ func check(id, tier string) int {
 	counters := map[string]int{}
 	samples := []any{}
 	perFlavor := map[string]int{}
+	trans := map[string]map[string]map[int]uint64{} // group -> label -> case -> hash
 	sem := make(chan struct{}, ncpu)
 	var wg sync.WaitGroup
 	for _, j := range jobs {
@@ -320,6 +322,18 @@ func check(id, tier string) int {
 				if !rep.Hooks {
 					hooks = false
 				}
+				if j.part.Compare != "" {
+					if trans[j.part.Compare] == nil {
+						trans[j.part.Compare] = map[string]map[int]uint64{}
+					}
+					lab := j.part.Flavor + "/" + j.part.Label
+					if trans[j.part.Compare][lab] == nil {
+						trans[j.part.Compare][lab] = map[int]uint64{}
+					}
+					for c, h := range rep.Transcripts {
+						trans[j.part.Compare][lab][c] = h
+					}
+				}
 				for _, v := range rep.Violations {
 					viols = append(viols, viol{v.Kind, v.Msg, v.Witness, j.part.Flavor, j.part.Mode, j.part.KnownFindingOnly})
 				}
@@ -362,6 +376,30 @@ func check(id, tier string) int {
 		}(j)
 	}
 	wg.Wait()
+
+	// cross-process transcript comparison
+	for group, labs := range trans {
+		names := []string{}
+		for l := range labs {
+			names = append(names, l)
+		}
+		sort.Strings(names)
+		for i := 1; i < len(names); i++ {
+			a, b := labs[names[0]], labs[names[i]]
+			for c, h := range a {
+				if hb, ok := b[c]; ok {
+					counters["cross_process_compares"]++
+					if hb != h {
+						w := filepath.Join(root, "replays", fmt.Sprintf("%s-xproc-%s-%d-%d.json", id, group, seed, c))
+						wb, _ := json.MarshalIndent(map[string]any{"prop": id, "flavor": strings.Split(names[0], "/")[0], "mode": "", "tier": tier, "seed": seed, "case": c,
+							"violation": []map[string]any{{"kind": "determinism.process", "msg": fmt.Sprintf("case %d: transcript %x in %s, %x in %s", c, h, names[0], hb, names[i])}}}, "", " ")
+						os.WriteFile(w, wb, 0o644)
+						viols = append(viols, viol{"determinism.process", fmt.Sprintf("case %d of group %s: transcript %x in process %s but %x in process %s", c, group, h, names[0], hb, names[i]), w, names[i], "", false})
+					}
+				}
+			}
+		}
+	}
 
 	// verdict
 	findings := loadFindings()
